@@ -93,12 +93,15 @@ class HTTPChannel(wasyncore.dispatcher):
 
         # try to flush any pending output
         if not self.requests:
-            # 1. There are no running tasks, so we don't need to try to lock
-            #    the outbuf before sending
+            # 1. There are no running tasks, but a task thread that has just
+            #    finished the last request may still be sending a deferred
+            #    100 Continue under the outbuf lock (see service()), so we
+            #    only flush if we can get the lock; if we can't, that thread
+            #    flushes itself and pulls the trigger when it is done.
             # 2. The data in the out buffer should be sent as soon as possible
             #    because it's either data left over from task output
             #    or a 100 Continue line sent within "received".
-            flush = self._flush_some
+            flush = self._flush_some_if_lockable
         elif self.total_outbufs_len >= self.adj.send_bytes:
             # 1. There's a running task, so we need to try to lock
             #    the outbuf before sending
